@@ -46,8 +46,11 @@ def _short(e):
 
 def returned_names(f):
     out = []
+    from ..astutil import owner_function
     for node in ast.walk(f.node):
         if isinstance(node, ast.Return) and node.value is not None:
+            if owner_function(node) is not f.node:
+                continue      # a return of a nested function
             v = node.value
             if isinstance(v, ast.Tuple):
                 v = v.elts[0]
